@@ -120,7 +120,8 @@ class WeakForms(_Simu):
         # Data
         weakForms = self.weakForms
         field = weakForms.field
-        thickness = 1.0 if self.mesh.inDim == 3 else weakForms.thickness
+        # a 2D mesh carries the thickness wherever it lies in space (as in the dedicated simulations)
+        thickness = weakForms.thickness if self.mesh.dim == 2 else 1.0
 
         tic = Tic()
 
